@@ -283,7 +283,20 @@ def run(tier):
                     with open(pth, 'w') as fh:
                         json.dump(p, fh)
                     paths.append(pth)
-                jdb = dbm.JsonDatabase(list(paths)) if ci % 20 == 0 else dbm.JsonDatabase(*paths)
+                # the description is what the constructor was given: a path list the caller changes afterwards (before the lazy
+                # load) must not change the answers
+                variant = (ci // (10 if big else 12)) % 3
+                if variant == 0:
+                    jdb = dbm.JsonDatabase(*paths)
+                elif variant == 1:
+                    plist = list(paths)
+                    jdb = dbm.JsonDatabase(plist)
+                    how = ci % 3
+                    if how == 0: plist.clear()
+                    elif how == 1: plist[0] = os.path.join(tmp, 'no_such_file.json')
+                    else: plist.append(os.path.join(tmp, 'no_such_file.json'))
+                else:
+                    jdb = dbm.JsonDatabase(tuple(paths))
                 j2 = pickle.loads(pickle.dumps(jdb))
                 for q, a in zip(reqs, answers):
                     if answer(jdb, q) != a or answer(j2, q) != a:
